@@ -235,6 +235,7 @@ def check_pair(ctx, case):
             for c in classes:
                 PS.forget_class(c)
     ctx.case(case, absent > 0, classes=tuple(set('combo:' + c for c in combos)) + (
+        ('out-handler-fails-in-replay',) if any(s_.get('hfail') for s_ in P2['steps']) else ()) + (
         'enabled' if case['enabled'] else 'disabled', 'replays:%d' % case['replays'], 'cassette:' + case['cassette'],
         'stops-with-key-error' if stopped else 'completes'))
 
@@ -327,6 +328,10 @@ def pairs(draw):
         if s['t'] == 'in' and type(s.get('a')) is int and s['a'] in (0, 1) and isinstance(s.get('ret'), list) and \
                 s['ret'][:1] == ['TYPED'] and draw(st.booleans()):
             s['a'] = draw(st.sampled_from([bool(s['a']), float(s['a'])]))     # equal in Python, another value
+        if s['t'] == 'out' and P2['outs'][s['i']].get('handler') == 'wrap' and draw(st.sampled_from([False, False, True])):
+            # the output's data handler worked while recording and fails during the replay (a file it reads is gone):
+            # the call is still answered from the recording and its body still does not run
+            s['hfail'] = True
         new_steps.append(s)
     for _ in range(draw(st.integers(0, 3))):
         pos = draw(st.integers(0, len(new_steps)))
